@@ -527,6 +527,8 @@ def run(ctx):
     ctx.rule("C03.once", "one delivery per decrypt handler with the decrypted proto child", floor=4)
     ctx.rule("C03.skdm", "payload consulted before delivery in both message layers", floor=2)
     ctx.rule("C03.persist", "every key-store write is committed before the store call returns (C13.commit adopted)", floor=9)
+    ctx.rule("C03.payload", "payload converter is a bijection (C10.bij / C10.has adopted)", floor=100)
+    ctx.rule("C03.ids", "ids unique across entity classes (C08.id adopted)", floor=3)
     ctx.rule("C03.state", "queues / parked stanzas / counters of the encryption layers are bound per instance", floor=6)
     ctx.rule("C03.map", "exception mapping and padding in the manager", floor=8)
     ctx.assume("python-axolotl's ratchets, sessions and exceptions behave as documented; conversations, restarts and group fan-out are not decided")
@@ -538,3 +540,11 @@ def run(ctx):
     ctx.guarded("C03.map", rule_map, ctx)
     ctx.guarded("C03.persist", rule_persist, ctx)
     ctx.guarded("C03.state", rule_state, ctx)
+    # 'delivered with the original content': the payload goes through C10's converter on both sides (C10.bij / C10.has), adopted
+    from . import c10, c08
+
+    def conv_rules(scratch):
+        c10.rule_bij_desc_has(scratch, c10.Conv(scratch))
+    ctx.adopt_from("C10", [(conv_rules, ())], {"C10.bij": "C03.payload", "C10.has": "C03.payload"})
+    # key requests, group-info requests and messages are correlated by id: ids unique across entity classes (C08.id), adopted
+    ctx.adopt_from("C08", [(c08.rule_id, ())], {"C08.id": "C03.ids"})
